@@ -16,6 +16,9 @@ Generic layer (any pattern tree `p`, any `match_to_lint` given as a `Spec`):
 * `matchToLint_total`: on in-text tokens (any order, zero-width ones included) whose number fits the spec's index
   expressions (`matched_tokens[i]`, `[a..b]`, `[len - k]`, Dashes' `match len { 2 .. 3 .. _ => panic!() }`) the
   `match_to_lint` returns;
+* `matchToLint_reads_bound_variables` / `shippedRule_reads_bound_variables`: `Fits` also asks that every `.var i` refers to a
+  text bound before it (`let`s are counted, the rules' own computations by `customSteps_yield`), so the interpreter's default
+  for an unbound variable is never taken; a spec with an unbound variable is not `Fits` / `Fine` (`unbound_variable_not_fits`);
 * `patternRule_total`: hence a rule whose tree is `plain`, whose own computations are total, and whose spec fits every
   length between `minLen` and `maxLen` (`Fine`) never panics — pattern, `run_on_chunk`, `match_to_lint`.
 
@@ -64,6 +67,111 @@ are in the text — and the `match_to_lint` returns a lint (last example of this
 example : specHereby.Good ∧ specHereby.Fits 5 ∧
     InText c!"here by go" [⟨⟨0, 4⟩, .word⟩, ⟨⟨4, 5⟩, .space 1⟩, ⟨⟨5, 7⟩, .word⟩, ⟨⟨7, 8⟩, .space 1⟩, ⟨⟨8, 10⟩, .word⟩] :=
   ⟨fineHereby.good, fineHereby.fits 5 (by decide) (by decide), by unfold InText TokIn; decide⟩
+
+/-! ### every variable a `match_to_lint` uses is bound
+
+A text `.var i` of a `Spec` is the `i`-th `let` of the Rust function; the interpreter reads it with `vars.getD i []`, so a
+spec that referred to a variable it never bound would still "return" (with the empty text) — and would correspond to no Rust
+code. `Spec.Fits` therefore counts the texts bound so far (`.bind` one; a computation of the rule's own as many as it hands
+on, `CustomYields`) and asks `i <` that number of every `.var i`. Under `Fits` the default is dead: the interpreter equals the
+one that has no default (`Spec.run?`: `vars[i]?`, `none` for an unbound variable). -/
+
+/-- **a fitting text never reads an unbound variable** -/
+theorem txt_reads_bound_variables (n : Nat) (src : List Char) (matched : List Tok) (vars : List (List Char)) (t : Txt)
+    (hf : t.Fits n vars.length) : t.eval? src matched vars = some (t.eval src matched vars) := Txt.eval?_eq n src matched vars t hf
+
+/-- non-vacuity of `txt_reads_bound_variables`: WasAloud's `format!("{verb} allowed")` with `verb` bound fits, and evaluates to
+the bound text followed by the literal -/
+example : (Txt.cat (.var 0) (.lit c!" allowed")).Fits 3 [c!"was"].length ∧
+    (Txt.cat (.var 0) (.lit c!" allowed")).eval [] [] [c!"was"] = .ok (some c!"was allowed") :=
+  ⟨⟨Nat.zero_lt_one, trivial⟩, by decide⟩
+
+/-- **a fitting `match_to_lint` never reads an unbound variable**: interpreted with the default `[]` for an unbound `.var`
+it is what it is interpreted without the default — on ANY tokens of that number (no other hypothesis) -/
+theorem matchToLint_reads_bound_variables (env : Env) (s : Spec) (src : List Char) (matched : List Tok)
+    (hf : s.Fits matched.length) : s.run? env src matched = some (s.run env src matched) := Spec.run?_eq env s src matched hf
+
+/-- non-vacuity of `matchToLint_reads_bound_variables`: WasAloud's spec (`.bind` of the verb, then `.var 0` in the suggestion)
+fits the three tokens of `was aloud`, and both interpreters give the lint -/
+example : specWasAloud.Fits 3 ∧
+    specWasAloud.run? env0 c!"was aloud" [⟨⟨0, 3⟩, .word⟩, ⟨⟨3, 4⟩, .space 1⟩, ⟨⟨4, 9⟩, .word⟩] =
+      some (.ok [⟨⟨0, 9⟩, [.replaceWith c!"was allowed"], 25, 0⟩]) :=
+  ⟨fineWasAloud.fits 3 (by decide) (by decide), by decide⟩
+
+/-- **every shipped `PatternLinter` rule, by name, on every number of tokens its tree can match** -/
+theorem shippedRule_reads_bound_variables (env : Env) (name : String) (r : PRule) (hn : patternRuleByName name = some r)
+    (src : List Char) (matched : List Tok) (hmin : r.pat.minLen ≤ matched.length)
+    (hmax : ∀ k, r.pat.maxLen = some k → matched.length ≤ k) : r.spec.run? env src matched = some (r.spec.run env src matched) :=
+  Spec.run?_eq env r.spec src matched ((fine_of_name name r hn).fits _ hmin hmax)
+
+/-- non-vacuity of `shippedRule_reads_bound_variables`: MultipleSequentialPronouns binds `[raw, second]` only on a match of three
+tokens — where its two suggestions are `.var 0`, `.var 1` — and nothing otherwise — where it has no suggestion; three tokens
+satisfy the hypotheses -/
+example : patternRuleByName "MultipleSequentialPronouns" = some ⟨patMultipleSequentialPronouns, specMultipleSequentialPronouns⟩ ∧
+    patMultipleSequentialPronouns.minLen ≤ 3 ∧ patMultipleSequentialPronouns.maxLen = none ∧
+    specMultipleSequentialPronouns.suggs 3 = [.replace (.var 0), .replace (.var 1)] ∧ specMultipleSequentialPronouns.suggs 5 = [] :=
+  ⟨rfl, by decide, by decide, rfl, rfl⟩
+
+/-- how many texts the five computations hand on: none (two guards), one, or — MultipleSequentialPronouns — two on three tokens -/
+theorem customSteps_yield (n : Nat) : CustomYields n 0 backGuard ∧ CustomYields n 1 piqueCorrect ∧
+    CustomYields n (if n = 3 then 2 else 0) pronounGuard ∧ CustomYields n 1 initialismCorrection ∧ CustomYields n 1 timeExpansion :=
+  ⟨backGuard_yields n, piqueCorrect_yields n, pronounGuard_yields n, initialismCorrection_yields n, timeExpansion_yields n⟩
+
+/-- non-vacuity of `customSteps_yield` (each conjunct is an implication from "the computation goes on with `vs`"): they do go
+on — `he she` gives the two pronouns, `peak` its correction -/
+example : pronounGuard env0 c!"he she" [⟨⟨0, 2⟩, .word⟩, ⟨⟨2, 3⟩, .space 1⟩, ⟨⟨3, 6⟩, .word⟩] = .ok (some [c!"he", c!"she"]) ∧
+    piqueCorrect env0 c!"peak" [⟨⟨0, 4⟩, .word⟩] = .ok (some [c!"pique"]) ∧
+    backGuard env0 c!"back" [⟨⟨0, 4⟩, .word⟩] = .ok (some []) := by decide
+
+/-- a spec that uses a variable it never binds: DotInitialisms' suggestion without the computation that binds it -/
+def specUnbound : Spec where
+  span := .whole
+  suggs := fun _ => [.replace (.var 0)]
+  msg := 34
+
+/-- the same with the `let` -/
+def specBound : Spec where
+  before := [.bind (.sel .first)]
+  span := .whole
+  suggs := fun _ => [.replace (.var 0)]
+  msg := 34
+
+/-- NEGATIVE: the spec with the unbound variable fits NO number of tokens (before `Fits` counted the bound texts it fitted
+every number: no index expression), so no rule with it is `Fine` … -/
+theorem unbound_variable_not_fits (n : Nat) : ¬ specUnbound.Fits n := by
+  intro h
+  have := h.steps (.replace (.var 0)) (by simp [specUnbound])
+  exact Nat.not_lt_zero _ this
+
+/-- … whatever its tree is -/
+theorem unbound_variable_not_fine (p : RPat) (hmax : p.maxLen = none) : ¬ Fine ⟨p, specUnbound⟩ := fun h =>
+  unbound_variable_not_fits p.minLen (h.fits p.minLen (Nat.le_refl _) (fun k hk => by rw [show (PRule.mk p specUnbound).pat.maxLen = p.maxLen from rfl, hmax] at hk; cases hk))
+
+/-- non-vacuity of `unbound_variable_not_fine`: Whereas' tree (no upper bound in the model) with that spec -/
+example : patWhereas.maxLen = none ∧ ¬ Fine ⟨patWhereas, specUnbound⟩ := ⟨by decide, unbound_variable_not_fine _ (by decide)⟩
+
+/-- … although its custom steps are `Good` (there is none) and the interpreter with the default "returns": the suggestion is the
+EMPTY text, which no Rust `match_to_lint` computes; the interpreter without the default says `none` -/
+example : specUnbound.Good ∧
+    specUnbound.run env0 c!"ie." [⟨⟨0, 2⟩, .word⟩, ⟨⟨2, 3⟩, .punct .Period⟩] = .ok [⟨⟨0, 3⟩, [.replaceWith []], 34, 0⟩] ∧
+    specUnbound.run? env0 c!"ie." [⟨⟨0, 2⟩, .word⟩, ⟨⟨2, 3⟩, .punct .Period⟩] = none :=
+  ⟨⟨good_of_noCustom _ rfl, good_of_noCustom _ rfl⟩, by decide, by decide⟩
+
+/-- POSITIVE: with the `let` the spec fits every number of tokens, a rule with it is `Fine`, and the two interpreters agree -/
+theorem bound_variable_fits (n : Nat) : specBound.Fits n := by
+  unfold specBound
+  fits_tac
+
+example : Fine ⟨patWhereas, specBound⟩ ∧
+    specBound.run? env0 c!"ie." [⟨⟨0, 2⟩, .word⟩, ⟨⟨2, 3⟩, .punct .Period⟩] = some (.ok [⟨⟨0, 3⟩, [.replaceWith c!"ie"], 34, 0⟩]) ∧
+    specBound.run env0 c!"ie." [⟨⟨0, 2⟩, .word⟩, ⟨⟨2, 3⟩, .punct .Period⟩] = .ok [⟨⟨0, 3⟩, [.replaceWith c!"ie"], 34, 0⟩] :=
+  ⟨{ plain := fineWhereas.plain, loc := fineWhereas.loc, good := ⟨good_of_noCustom _ rfl, good_of_noCustom _ rfl⟩,
+      fits := fun n _ _ => bound_variable_fits n }, by decide, by decide⟩
+
+/-- a variable bound AFTER the place that uses it does not count: `.var 0` inside the first `.bind` -/
+example : ¬ (Spec.Fits { before := [.bind (.var 0)], span := .whole, suggs := fun _ => [], msg := 0 } 1) := by
+  intro h
+  exact Nat.not_lt_zero _ h.steps.1
 
 /-- the five rules that compute something of their own before the lint is built do so totally and locally -/
 theorem customSteps_good : CustomGood 0 backGuard ∧ CustomGood 1 piqueCorrect ∧ CustomGood 0 pronounGuard ∧
